@@ -190,8 +190,16 @@ func (m *mux) ensureContext(r *http.Request) *chi.Context {
 	if ctx.RoutePattern() != "" {
 		return ctx // already initialized
 	}
-	if !m.Router.Match(ctx, r.Method, r.URL.Path) {
+	// Not routed yet (a middleware asking before calling next): match on a
+	// scratch context, on the string chi will route on, so that the request's
+	// own routing context is left untouched.
+	path := r.URL.RawPath
+	if path == "" {
+		path = r.URL.Path
+	}
+	scratch := chi.NewRouteContext()
+	if !m.Router.Match(scratch, r.Method, path) {
 		return nil // route not handled by chi
 	}
-	return ctx
+	return scratch
 }
